@@ -28,14 +28,18 @@ def listing():
 
 
 def _alarm(*a):
-    raise TimeoutError('no answer after 20 s')
+    raise TimeoutError('no answer after 5 s')
 
 
 signal.signal(signal.SIGALRM, _alarm)
 cases = json.load(sys.stdin)
 res = []
+timeouts = 0
 root = os.getcwd()
 for c in cases:
+    if timeouts >= 3:   # the implementation stopped answering: do not hang the harness
+        res.append({'ok': False, 'exc': 'TimeoutError', 'msg': 'skipped after 3 timeouts', 'before': {}, 'after': {}, 'splitext': ['', '']})
+        continue
     d = tempfile.mkdtemp(dir=root)
     os.chdir(d)
     try:
@@ -48,12 +52,13 @@ for c in cases:
                 fh.write('content of ' + f + '\n')
         r = {'before': listing(), 'splitext': list(os.path.splitext(c['target']))}
         try:
-            signal.alarm(20)
+            signal.alarm(5)
             r['ret'] = create_backup(c['target'], bool(c['rename']))
             signal.alarm(0)
             r['ok'] = True
         except Exception as e:  # noqa
             signal.alarm(0)
+            timeouts += isinstance(e, TimeoutError)
             r['ok'] = False
             r['exc'] = type(e).__name__
             r['msg'] = str(e)[:200]
